@@ -6,7 +6,7 @@ EXTRA = ["common/env.c"]
 META = {
     "bounds": "L1: dots() on every segment of length <= 5 (quick) / 7 (thorough) and check_segment() on every segment of "
               "length <= 4 / 6, exact-size objects, full byte alphabet; B2: coap_split_path and coap_split_query on every string of "
-              "length <= 4 (quick) / 5-6 (thorough), every output buffer size: nothing written outside the buffer, and for "
+              "length <= 3 (quick) / 4-6 (thorough), output buffer sizes {0,1,2,n,2n+2}: nothing written outside the buffer, and for "
               "well-formed escapes with a sufficient buffer the emitted options equal the reference list (RFC 3986 5.2.4 dot-segment "
               "removal, escapes decoded exactly once); B3: coap_get_uri_path / coap_get_query on requests with 1-2 options of "
               "length 0..2 and every byte value: exact allocation, well-formed output, reference splitter gives back the option "
@@ -33,7 +33,7 @@ def jobs():
         for n in range(0, 7):
             variants = [("functional", 2 * n + 2, True)] + [("safety-bl%d" % b, b, False) for b in sorted(set([0, 1, 2, n]))]
             for vn, bl, fn in variants:
-                tier = "quick" if n <= (3 if fn else 4) else "thorough"
+                tier = "quick" if n <= (3 if fn else 3) else "thorough"
                 if fn and n > 5:
                     continue
                 js.append(Job("B2-split-%s@n%d-%s" % (qn, n, vn), "C16/c16.c", "c16_b2_split", UNITS, extra_src=EXTRA,
@@ -46,7 +46,7 @@ def jobs():
             n = 3 * (l1 + l2) + 1
             js.append(Job("B3-get-%s@%dseg-%d.%d" % (qn, nseg, l1, l2), "C16/c16.c", "c16_b3_get", UNITS, extra_src=EXTRA,
                           defines=["NSEG=%d" % nseg, "L1=%d" % l1, "L2=%d" % l2, "QUERY=%d" % q, "N=%d" % n, "ENV_NO_ALLOC"], unwind=n + 3,
-                          tier="quick" if l1 + l2 <= 3 else "thorough", group="B3-get-" + qn, termination=True, timeout=1800, est_gb=4,
+                          tier="quick" if l1 + l2 <= 2 else "thorough", group="B3-get-" + qn, termination=True, timeout=1800, est_gb=4,
                           desc="coap_get_%s on %d option(s) of length %d/%d, every byte value: exact allocation, injective" % (qn.replace("-", "_"), nseg, l1, l2),
                           bounds={"segments": nseg, "lengths": [l1, l2]}))
     return js
